@@ -26,6 +26,13 @@ def main(tier, args):
     # single-process searches first, the sharded front-end sweeps fill the remaining slots and time
     for L in (21, 20, 1, 0):
         jobs.append(("cmd:hist%d" % L, [cmd, str(L), str(cmd_depth)]))
+    # navigation lane (directories, a directory cycle, deleted nodes; cd/ls/tree/pwd/help/paths/!!), partitioned by the first command
+    nav_depth, nav_parts, tok_len, tok_shards = (3, 2, 5, 1) if quick else (4, 6, 6, 2)
+    for part in range(nav_parts):
+        jobs.append(("cmd:nav:%d" % part, [cmd, "nav", str(nav_depth), str(part), str(nav_parts)]))
+    # tokenizer lane: every line of length <= tok_len over {p a SPACE ' " ; !}
+    for sh in range(tok_shards):
+        jobs.append(("cmd:tok:%d" % sh, [cmd, "tok", str(tok_len), str(sh), str(tok_shards)]))
     for mode in ("echo", "noecho", "quiet"):
         for pre in (19, 0):
             jobs.append(("editor:%s:prefill%d" % (mode, pre), [editor, mode, str(ed_depth), str(pre)]))
@@ -33,6 +40,17 @@ def main(tier, args):
     for enter in ("cr", "lf", "crnul"):
         for mode, pre in (("echo", 0), ("noecho", 19)):
             jobs.append(("editor:%s:prefill%d:enter-%s" % (mode, pre, enter), [editor, mode, str(ed_depth), str(pre)], {"C13_ENTER": enter}))
+    # several keys per segment: the whole history in ONE onRecvString call / adjacent pairs of keys (both parities); a bare CR
+    # is used for an Enter only where it ends its segment
+    for glue in ("all", "pairs0", "pairs1"):
+        for mode, pre, enter in (("echo", 0, "crlf"), ("noecho", 19, "lf"), ("quiet", 0, "crnul"), ("echo", 19, "cr")):
+            jobs.append(("editor:%s:prefill%d:glue-%s:enter-%s" % (mode, pre, glue, enter), [editor, mode, str(ed_depth), str(pre)], {"C13_ENTER": enter, "C13_GLUE": glue}))
+    # second alphabet: 0x08 as Backspace and keys the reference editor ignores (TAB, Insert, PgUp/PgDn, F-keys, Alt+x, lone ESC, ...)
+    for mode, pre, glue in (("echo", 0, "none"), ("noecho", 19, "none"), ("echo", 0, "all"), ("quiet", 19, "pairs1")):
+        jobs.append(("editor:%s:prefill%d:alias-keys:glue-%s" % (mode, pre, glue), [editor, mode, str(ed_depth), str(pre)], {"C13_ALPHA": "alias", "C13_GLUE": glue}))
+    # two sessions on one Terminal, keys interleaved: per-session line / cursor / history / scanner state must not leak
+    for mode, glue in (("echo", "none"), ("noecho", "pairs0")):
+        jobs.append(("editor:%s:prefill0:two-sessions:glue-%s" % (mode, glue), [editor, mode, str(ed_depth), "0"], {"C13_TWIN": "1", "C13_GLUE": glue}))
     for m, flen, nshard in (("direct", fe_len, 6), ("sock", fe_len_sock, 1 if quick else 6)):
         for s in range(nshard):
             for f in ("telnetd", "tcprpc"):
@@ -61,20 +79,45 @@ def main(tier, args):
                    "byte encoding through Terminal::onRecvString on a fresh session behind a fake Connection, with echo / without echo / quiet mode, on an empty and on a 19-entry history; "
                    "the probe node is mounted under every line over {a,b} that fits the bound so argv[0] is the executed line; oracle after every key = reference line editor + 20-entry history "
                    "(executed line, exactly one '# ' prompt per Enter (none in quiet mode), cursor<=length, line/cursor/history/history-index equal to the reference); "
-                   "state = (line, cursor, history, history index) of implementation and reference. "
+                   "state = (line, cursor, history, history index) of implementation and reference; Enter as CR LF, and in further runs as bare CR, bare LF and CR NUL. "
+                   "(1a-glue) the same histories with the keys of a history glued into ONE onRecvString call, and in adjacent pairs (both parities), Enter as CR LF / LF / CR NUL / CR-where-it-ends-the-segment: "
+                   "oracle per segment = the sequence of executed lines, one prompt per Enter in the segment, and line/cursor/history after the segment, all from the same reference editor. "
+                   "(1a-two-sessions) the same histories while a second session on the same Terminal (own connection, own reference) receives one key of the cycle {b, LEFT, a, ENTER, UP, ENTER} after every segment of "
+                   "the first; both sessions judged after each of their segments. "
+                   "(1a-alias) a second key alphabet {a, LEFT, UP, ENTER, 0x08 (the reference treats it as Backspace), TAB, Insert, PgUp, PgDn, F1, F5, F12, Alt+a, Ctrl+Alt+a (C2 81), C2 A1, the unknown CSI 'ESC [ 9', a lone ESC "
+                   "(one-key-per-segment runs only)}: the reference editor ignores every key it does not know. "
                    "(1b, engine H, BFS, every history replayed in a crash-contained child) command sequences of <=%d commands from {p a, p b c, history, exit, !!, !n for n in "
-                   "{0,1,19,20,21,-1,-20,-21,2147483647,-2147483648,99999999999,-99999999999,x}}, each either in its own segment followed by a real loop pass or glued to the previous "
+                   "{0,1,19,20,21,-1,-20,-21,2147483647,-2147483648,99999999999,-99999999999,x}, the plain chain 'p a;p b c' (two calls, stored verbatim, re-run by !!/!n), three ';'-chains with a history reference "
+                   "that is not their last command (calls judged, storage adopted; later lines of the same segment then only prompt-judged)}, each either in its own segment followed by a real loop pass or glued to the previous "
                    "command's segment, on prefilled histories of length {0,1,20,21}; oracle = one prompt per command line, probe argv of the addressed entry or an error message when it does not "
                    "exist, listing and stored history equal to the most recent 20 stored lines, exit ends the session on the next loop pass, no crash / sanitizer report / exception / hang. "
+                   "(1c, engine H, navigation lane) sequences of <=%d commands from 38 (cd / ls / tree / pwd / help with relative, absolute, '.', '..', above-root, cyclic, deleted and function paths; bare directory names; function "
+                   "paths 'd/f x', '/p a', 'e/top/p b', '../p c'; unknown names; !!, !0, history) on a node tree with nested directories, a directory mounted below itself, the root mounted below, a deleted function node and a "
+                   "deleted directory node that are still mounted; oracle from a reference path model: a function path runs the probe once with the line's words, a path that does not resolve or addresses a deleted node "
+                   "runs nothing and reports an error, cd / bare directory move the current directory (compared after every line, and through pwd's output), built-ins run no probe, one prompt per line, every line stored; "
+                   "state adds the current directory. "
+                   "(1d, engine I, tokenizer lane) every line of length <=%d over {p, a, SPACE, ', \", ;, !} + CR LF on a fresh session with a one-entry history: no crash / exception / hang, exactly one prompt; for lines "
+                   "without ';' and '!' the probe's argv equals a reference tokenizer written to the conventions of util/split_cmdline_test.cpp, an unclosed quote or an unknown command name is an error and runs nothing. "
                    "(2, engine I) real Telnetd and TcpRpc listening on a unix stream socket with a real epoll loop, fresh client connection per case: every byte string of length<=%d (mode direct) / <=%d (mode sock) over "
                    "{IAC,SB,SE,WILL,DO,NOP,1,31,ESC,'[','A','3','~',CR,LF,NUL,'a',0xC2,0x80} in every 2-way segmentation, every prefix truncation of well-formed NAWS/TTYPE/TSPEED/negotiation "
                    "frames and NAWS-style frames with 0..5 payload bytes (every 2-way segmentation, and with the last segment filling the receive buffer exactly), exit/quit teardown inputs; "
+                   "teardown-eof: 17 inputs (exit, double exit, 'p 1', 'p 1' + exit, empty, partial line, CR, ESC, IAC, IAC DO, unterminated and half-terminated NAWS) whose last segment is followed IN THE SAME STEP by close() or "
+                   "shutdown(SHUT_WR) of the client socket - a line sent before the EOF must still have run exactly once; second-client: a first client has typed 'p 7' without Enter while a second client goes through every "
+                   "frame (every 2-way segmentation, probe included), every teardown input and every teardown-eof input, then the first client sends CR LF and must be answered by PROBE<7> exactly once; "
                    "delivered through the socket (mode sock) and directly into the service's onTcpReceived with an exact-capacity Buffer (mode direct); oracle = child survives, no ASan/UBSan "
                    "report, no exception, and after 'NUL NUL IAC SE CR LF' the session executes a probe command exactly once and its answer arrives on the socket"
-                   % (ed_depth, cmd_depth, fe_len, fe_len_sock),
+                   % (ed_depth, cmd_depth, nav_depth, tok_len, fe_len, fe_len_sock),
               assumptions=["history navigation conventions and the storage rule of DESIGN 1.7 (Down past the newest entry gives an empty line; stored lines = non-empty executed lines other than "
                            "'history' and failed '!' references, '!' references stored in expanded form); 'history' numbers entries from 0 the way !n addresses them",
                            "an error report is any answer containing 'Error'/'error' with no command executed",
+                           "Enter is encoded as CR LF, CR NUL, LF, or a CR that ends its segment; a CR followed in the same segment by another byte is not generated",
+                           "keys outside the stated reference editor (TAB, Insert, PgUp/PgDn, F-keys, Alt/Ctrl+Alt combinations, lone ESC, unknown sequences) leave line, cursor and history unchanged; 0x08 is Backspace",
+                           "path conventions of the navigation lane follow the shell's own: a leading '/' starts at the root, '.' and empty names stay, '..' at the root does not resolve (the command then changes nothing), "
+                           "a name resolves only inside an existing directory, the current directory is the list of names entered (a cycle makes it longer), pwd prints '/' + those names joined by '/'; whether a failing "
+                           "cd / ls / tree / help prints an error is not judged, the content of ls / tree / help output is not judged (only: no probe call, one prompt, no '# ' inside)",
+                           "tokenizer conventions are those pinned by util/split_cmdline_test.cpp; lines where text follows a closing quote of a quote-started word, or whose command name is empty, are judged for crash / prompt only; "
+                           "what a line with an unclosed quote leaves in the history is not judged",
+                           "a line whose bytes reach the server together with the client's EOF is executed exactly once (holds for data-then-EOF ordering of a stream socket); what runs after an 'exit' in the same segment is not judged",
                            "quiet-mode sessions: the clause checked is 'no prompt, line executed once' (DESIGN 1.7)",
                            "an unterminated telnet sub-negotiation legitimately swallows the bytes that follow, so the probe is preceded by NUL NUL IAC SE CR LF",
                            "an idle real loop (epoll_wait would block) is the point where the harness client takes its next step (interposed epoll_wait)",
